@@ -81,6 +81,9 @@ func TestC16Gate(t *testing.T) {
 					o.Name = fmt.Sprintf("g%d", g)
 				}
 			}
+			if g > 0 && o.Name != "" && rapid.IntRange(0, 3).Draw(rt, "sameName") == 0 {
+				o.Name = groups[0].Name // a copy-pasted block whose name was not changed: still a group that must be safe
+			}
 			groups = append(groups, o)
 			cls := ""
 			if r := unsafeReasons(o); len(r) > 0 {
@@ -117,10 +120,16 @@ func TestC16Gate(t *testing.T) {
 		}
 		col.Eval(1)
 		text := string(out)
-		passed := map[string]bool{}
+		passed := map[string]int{}
 		for _, m := range gateLine.FindAllStringSubmatch(text, -1) {
 			if m[1] == "PASS" {
-				passed[m[3]] = true
+				passed[m[3]]++
+			}
+		}
+		safeNamed := map[string]int{}
+		for g, o := range groups {
+			if unsafe[g] == "" {
+				safeNamed[o.Name]++
 			}
 		}
 		beyond := strings.Contains(text, "cluster config")
@@ -128,7 +137,7 @@ func TestC16Gate(t *testing.T) {
 			return fmt.Sprintf("args %v\nfile:\n%s\nunsafe classes per group: %q\noutput:\n%s", args, doc, unsafe, text)
 		}
 		for g, o := range groups {
-			if passed[o.Name] && unsafe[g] != "" {
+			if passed[o.Name] > safeNamed[o.Name] && unsafe[g] != "" { // more [PASS] verdicts under this name than safe groups carrying it
 				fail(rt, dumpPath(), "C16:gate-passed-unsafe:"+unsafe[g], "%s", desc())
 			}
 		}
